@@ -280,6 +280,18 @@ func fxWire(P *Program) (fails []string) {
 	if ok, _, _, err := wireIncluded(w, auto(fs[2])); err == nil && ok {
 		fails = append(fails, "wireIncluded accepts a reader that consumes 2 bytes where 4 are written")
 	}
+	// a loop over a three-element literal writes exactly three bytes
+	ls, e := need(P, "wireWriteLoop3", "wireRead3", "wireRead2")
+	if e != nil {
+		return append(fails, e...)
+	}
+	lw := auto(ls[0])
+	if ok, wit, _, err := wireIncluded(lw, auto(ls[1])); err != nil || !ok {
+		fails = append(fails, fmt.Sprintf("a constant-trip loop of three one-byte writes is not read as exactly three bytes (witness %v)", wit))
+	}
+	if ok, _, _, err := wireIncluded(lw, auto(ls[2])); err == nil && ok {
+		fails = append(fails, "a reader of two bytes is accepted for a loop that writes three")
+	}
 	return
 }
 
